@@ -111,6 +111,14 @@ func (v wrapperValue) Int() int {
 	if n, ok := v.value.(int); ok {
 		return n
 	}
+	// an integer of another width, if it is an int's worth
+	rv := reflect.ValueOf(v.value)
+	switch {
+	case rv.IsValid() && rv.CanInt() && int64(int(rv.Int())) == rv.Int():
+		return int(rv.Int())
+	case rv.IsValid() && rv.CanUint() && rv.Uint() <= math.MaxInt:
+		return int(rv.Uint())
+	}
 	panic(conversionError("", v.value, reflect.TypeOf(1)))
 }
 
